@@ -37,7 +37,7 @@ CHECKS.update({
   'technique': 'Verus contracts + invariant on the Web adapter, exec-form protocol lemmas',
  },
  'C15': {
-  'text': 'Partial proof, on the real abasic-cli functions (clap derive/attributes dropped; the `colored` dependency is linked as the real crate, built from Cargo.lock with the toolchain Verus uses): the options the session was started with are the ones in force in the interpreter that runs the program - CliArgs::create_interpreter / configure_interpreter set both switches from the arguments, StdioInterpreter::new establishes and load_source_file (file mode, with or without --skip-check), show_interpreter_output, break_interpreter and show_error preserve "interpreter.enable_warnings == args.warnings && interpreter.enable_tracing == args.tracing" and leave the arguments alone; a loaded session is idle and well formed, so RUN can follow; Interpreter::from_program runs exactly the program it is given and SourceFileAnalyzer::into_interpreter hands over exactly the analyzer's stored lines with no runtime state of the analysis (breakpoint, stack, loops, functions, DATA cursor) and default switches. No index or arithmetic in load_source_file can go out of range given that every diagnostic names a line of the file. Census: run_impl replaces the interpreter only through args.create_interpreter().',
+  'text': 'Partial proof, on the real abasic-cli functions (clap derive/attributes dropped; the `colored` dependency is linked as the real crate, built from Cargo.lock with the toolchain Verus uses): the options the session was started with are the ones in force in the interpreter that runs the program - CliArgs::create_interpreter / configure_interpreter set both switches from the arguments, StdioInterpreter::new establishes and load_source_file (file mode, with or without --skip-check), show_interpreter_output, break_interpreter and show_error preserve "interpreter.enable_warnings == args.warnings && interpreter.enable_tracing == args.tracing" and leave the arguments alone; a loaded session is idle and well formed, so RUN can follow; Interpreter::from_program runs exactly the program it is given and SourceFileAnalyzer::into_interpreter hands over exactly the stored lines of the analyzer with no runtime state of the analysis (breakpoint, stack, loops, functions, DATA cursor) and default switches. No index or arithmetic in load_source_file can go out of range given that every diagnostic names a line of the file. Census: run_impl replaces the interpreter only through args.create_interpreter().',
   'note': 'The loading-equals-typing half (SourceFileAnalyzer::run) is undecided. Assumed: analyzer contracts (analyze / take_messages / take_source_file_lines), printer methods and Display impls are total, std::fs::read_to_string / SystemTime / println are total and touch no program state, the clock does not run backwards between two adjacent statements.',
   'technique': 'Verus contracts + invariant on the CLI front-end (verbatim extraction, real `colored` crate linked), syntactic census for run_impl',
  },
